@@ -66,9 +66,21 @@ def machine_for(pre, rec=None) -> RefMachine:
         m.pos[a] = v if (k and v is not None) else None
     m.relative = bool(pre["relative"])
     m.tool_on = pre["tool"] is not None
+    if pre["tool"] is not None:
+        m.tool_code = {"cw": "M3", "ccw": "M4", "constant": "M3", "dynamic": "M4"}[pre["tool"][1]]
     m.coolant_on = pre["coolant"] is not None
+    if pre["coolant"] is not None:
+        m.coolant_code = {"mist": "M7", "flood": "M8"}[pre["coolant"]]
     m.feed = pre["feed"]
     m.power = pre["power"]
+    if pre["tool_swap"] != "off":
+        m.tool_number = pre["tool_number"]
+    for key, t in zip(("hotend", "bed", "chamber"), pre["temps"]):
+        if t is not None:
+            m.temps[key] = t
+    m.extrusion_relative = pre["extrusion"] == "relative"
+    for k, v in pre["params"].items():
+        m.params[k.upper()] = v
     return m
 
 
